@@ -63,6 +63,19 @@ Theorem C09_server_monitor : forall (T C : Type) (tp : transport T response cmsg
   c09s_ok c ops (fst (run tp ctl tfuel c t0 ops)) = true.
 Proof. exact s09_holds. Qed.
 
+(* the same for a channel driven through tarpc's own execute() (ServerExec.v), WITHOUT the
+   hypothesis stops_after_error: it holds of every such run, only B1 remains *)
+From TarpcV Require Import ServerExec ServerExecProofs.
+Theorem C09_server_monitor_exec : forall (T C : Type) (tp : transport T response cmsg) (ctl : T -> C -> T)
+    (tfuel : T -> nat) (c : cfg) (t0 : T) (eops : list (eop C)),
+  tfuel_ok tp tfuel ->
+  let ops := exec_ops tp ctl tfuel c t0 eops in
+  let v := observe c ops (exec_trace tp ctl tfuel c t0 eops) in
+  c09s_ok c ops (exec_trace tp ctl tfuel c t0 eops) = true
+  /\ h_stop v = true /\ v_bad v = false /\ (h_b1 v = true -> v09 v = true).
+Proof. exact ServerExecProofs.C09_server_monitor_exec. Qed.
+
 Print Assumptions C09_client_monitor.
 Print Assumptions C09_server_drop_aborts.
 Print Assumptions C09_server_monitor.
+Print Assumptions C09_server_monitor_exec.
